@@ -84,6 +84,10 @@ fn main() {
                 eprintln!("MACHINERY ERROR: watchdog fired after {} s", limit);
                 std::process::exit(2);
             });
+            if let Err(e) = q::self_test().and_then(|_| refs::self_test()) {
+                eprintln!("MACHINERY ERROR: {}", e);
+                std::process::exit(2);
+            }
             let ctx = Ctx { tier, seed };
             let t0 = std::time::Instant::now();
             let out = match checks::run(&id, &ctx) {
